@@ -130,6 +130,11 @@ func (s *ftpService) Handle(ctx context.Context, conn net.Conn) error {
 
 	ftpConn := s.server.newConn(conn, driver, recv)
 
+	// also when a command panics (the server recovers and only closes the control connection):
+	// the session's data socket - passive listener, Accept goroutine, accepted connection - goes
+	// with it.  Close is idempotent; Serve calls it on every normal way out.
+	defer ftpConn.Close()
+
 	go func() {
 		for msg := range recv {
 			s.c.Send(event.New(
